@@ -5,7 +5,8 @@ import CashewsVerif.Model.Tags
   case <batch> <nkeys> <reg>      reg = `-` or `k:t+t;k:t;...` (what `get_key_tags` yields per key)
   set K V TTL COND TAGS | incr K BY TTL TAGS | call K V TTL TAGS      TAGS = `-` or `t+t`
   get K | exists K | delete K | delmany K.. | delmatch K.. | deltags T.. | adv N | purge
-  early K LK X TTL E TAGS | soft K X TTL S TAGS | hit K KC X TTL TAGS CACHE_HITS UPDATE_AFTER
+  early K LK X TTL E TAGS RUN | soft K X TTL S TAGS RUN | hit K KC X TTL TAGS CACHE_HITS UPDATE_AFTER RUN | scall K V TTL TAGS RUN
+                                  RUN = `D A AR`: ticks the body takes, condition accepts a computed result (0/1), a re-written one (0/1)
                                   (a call of a function decorated with early / soft / hit: `Tags.earlyCall`, `softCall`,
                                    `hitCall` decide from the model state which wrapper commands the decorator issues;
                                    X = number of the token the body returns, LK / KC = lock / counter key)
@@ -53,13 +54,20 @@ def parseOp? : List String → Option TOp
   | _ => none
 
 /-- decorated calls of the re-writing strategies: the commands they issue in state `s`, and the caller's answer -/
+def parseBool? (s : String) : Option Bool := if s = "1" then some true else if s = "0" then some false else none
+
+/-- `D A AR`: ticks the body takes, does the condition accept a computed / a re-written result -/
+def parseRun? (d a ar : String) : Option Run := do pure ⟨(← d.toNat?), (← parseBool? a), (← parseBool? ar)⟩
+
 def parseDecor? (cfg : Cfg) (s : St) : List String → Option (List TOp × Out)
-  | ["early", k, lk, x, ttl, e, tags] => do
-    pure (earlyCall cfg s (← k.toNat?) (← lk.toNat?) (← x.toNat?) (← parseTtl? ttl) (← e.toNat?) (← parseTags? tags))
-  | ["soft", k, x, ttl, e, tags] => do
-    pure (softCall cfg s (← k.toNat?) (← x.toNat?) (← parseTtl? ttl) (← e.toNat?) (← parseTags? tags))
-  | ["hit", k, kc, x, ttl, tags, ch, ua] => do
-    pure (hitCall cfg s (← k.toNat?) (← kc.toNat?) (← x.toNat?) (← parseTtl? ttl) (← parseTags? tags) (← ch.toNat?) (← ua.toNat?))
+  | ["early", k, lk, x, ttl, e, tags, d, a, ar] => do
+    pure (earlyCall cfg s (← k.toNat?) (← lk.toNat?) (← x.toNat?) (← parseTtl? ttl) (← e.toNat?) (← parseTags? tags) (← parseRun? d a ar))
+  | ["soft", k, x, ttl, e, tags, d, a, ar] => do
+    pure (softCall cfg s (← k.toNat?) (← x.toNat?) (← parseTtl? ttl) (← e.toNat?) (← parseTags? tags) (← parseRun? d a ar))
+  | ["hit", k, kc, x, ttl, tags, ch, ua, d, a, ar] => do
+    pure (hitCall cfg s (← k.toNat?) (← kc.toNat?) (← x.toNat?) (← parseTtl? ttl) (← parseTags? tags) (← ch.toNat?) (← ua.toNat?) (← parseRun? d a ar))
+  | ["scall", k, v, ttl, tags, d, a, ar] => do
+    pure (simpleCall cfg s (← k.toNat?) (← parseVal? v) (← parseTtl? ttl) (← parseTags? tags) (← parseRun? d a ar))
   | _ => none
 
 def showNats (ks : List Nat) : String := ",".intercalate (ks.map toString)
